@@ -38,7 +38,12 @@ def check(prog: Program, tier: str) -> Result:
     _producer(prog, res)
     _unpacker(prog, res)
     _module_level_deletes(prog, res)
-    res.floors.update({"R7.1": 14, "R7.2": 8, "R7.3": 4, "R7.4": 4, "R7.6": 1})
+    # a memo inside the rule wrappers would replay results computed under ANOTHER preserve set: decided by the C05 check
+    from . import c05 as _c05
+    _tmp = Result("C05", "", "")
+    _c05._r5_6(prog, _tmp)
+    res.adopt(_tmp, {"R5.6"}, "R7.7", "safe mode / preserve only protect the surface if no rule result is replayed from a memo that ignores the preserve set")
+    res.floors.update({"R7.1": 14, "R7.2": 8, "R7.3": 4, "R7.4": 4})
     res.analysed.update(stats)
     return res
 
